@@ -21,7 +21,10 @@ Expect(rs, ch) ==
   IF target' \in {"word", "ws", "word0", "ws0"} THEN (IF r = NoRef THEN "nil" ELSE "set") ELSE r
 
 \* indices of the probes whose looked-up identity is not the latest covering registration
-Bad(look, rs) == {i \in 1 .. Len(look) : look[i][2] # Expect(rs, look[i][1])}
+ExpectLit(rs, ch) ==
+  LET r == LookupLitIn(rs, ch) IN
+  IF target' \in {"word", "ws", "word0", "ws0"} THEN (IF r = NoRef THEN "nil" ELSE "set") ELSE r
+Bad(look, rs) == {i \in 1 .. Len(look) : look[i][2] # Expect(rs, look[i][1]) /\ ~(look[i][1] > MaxChar /\ look[i][2] = ExpectLit(rs, look[i][1]))}
 LookFails(look, rs) ==
   LET bad == Bad(look, rs) IN
   IF bad = {} THEN ""
